@@ -94,6 +94,11 @@ CASES = {
                f"PUSH0 PUSH0 PUSH0 PUSH0 PUSH1 0x04 CALLDATALOAD PUSH2 0x2000 PUSH2 0xffff CALLCODE PUSH1 0x20 MSTORE "
                f"PUSH0 PUSH0 PUSH0 PUSH0 PUSH1 0x04 CALLDATALOAD PUSH2 0x2000 PUSH2 0xffff CALL PUSH1 0x40 MSTORE {RET}",
          0x2000: "PUSH1 0x01 PUSH0 SSTORE STOP"}, 1, False, {}, ["C09", "C01"]),
+    # EIP-211: after a CREATE whose init code reverts, the return data buffer holds the revert data
+    "create-revert-returndata": (
+        {MAIN: "PUSH12 0x63deadbeef5f526004601cfd PUSH0 MSTORE PUSH1 0x0c PUSH1 0x14 PUSH0 CREATE PUSH1 0x20 MSTORE "
+               f"RETURNDATASIZE PUSH1 0x40 MSTORE PUSH1 0x04 PUSH0 PUSH1 0x60 RETURNDATACOPY {RET}"},
+        1, False, {}, ["C01", "C09"]),
     "call-revert-rolls-back": (
         {MAIN: f"PUSH1 0x05 PUSH1 0x01 SSTORE PUSH1 0x20 PUSH1 0x40 PUSH0 PUSH0 PUSH1 0x03 PUSH2 0x2000 PUSH2 0xffff CALL PUSH0 MSTORE PUSH1 0x40 MLOAD PUSH1 0x20 MSTORE PUSH2 0x2000 BALANCE PUSH1 0x60 MSTORE PUSH1 0x01 SLOAD PUSH1 0x80 MSTORE {RET}",
          0x2000: "PUSH1 0x09 PUSH1 0x01 SSTORE CALLVALUE PUSH0 MSTORE PUSH1 0x20 PUSH0 REVERT"}, 1, False, {}, ["C09", "C01"]),
